@@ -257,10 +257,18 @@ class C15(Engine):
         delivered = []
         next_message = 0
         stopped = False
+        capped = False
         all_indices = list(range(len(sent)))
 
         for size in sizes:
-            if stopped or result.ticks > 2 * RUN_TICKS:
+            if stopped:
+                break
+
+            if result.ticks > 2 * RUN_TICKS:
+                # Simulated-time cap of the run: the stream is abandoned,
+                # nothing can be said about what was not delivered yet.
+                result.stats['streams-abandoned-at-tick-cap'] += 1
+                capped = True
                 break
 
             buf += stream[position:position + size]
@@ -336,7 +344,7 @@ class C15(Engine):
             if offset <= len(stream):
                 complete += 1
 
-        if not stopped or next_message >= len(sent):
+        if not capped and (not stopped or next_message >= len(sent)):
             if delivered != list(range(complete)) and not result.violations:
                 violation('history', {'delivered': delivered,
                                       'complete_messages_sent': complete},
